@@ -17,7 +17,9 @@ from pddl_plus_parser.lisp_parsers import TrajectoryParser
 KINDS = ["app", "apply", "newop", "applyop", "copy", "eq", "run", "export", "parse", "objs", "flconds", "typed", "edit", "groundrep", "oprepeat"]
 WEIGHTS = {"chain": [3, 8, 1, 3, 0, 0, 2, 0, 0, 0, 0, 0, 2, 1, 0], "mixed": [2, 5, 1, 3, 1, 2, 2, 1, 1, 1, 1, 1, 2, 1, 2],
            "state": [1, 5, 1, 2, 3, 6, 1, 0, 1, 2, 2, 2, 3, 1, 1], "traj": [0, 2, 0, 0, 0, 1, 4, 3, 4, 0, 0, 0, 0, 1, 0],
-           "plans": [0, 1, 0, 0, 0, 0, 6, 1, 1, 0, 0, 0, 0, 0, 0]}
+           "plans": [0, 1, 0, 0, 0, 0, 6, 1, 1, 0, 0, 0, 0, 0, 0],
+           # a few long-lived Operator objects asked about and applied to many states, earlier and later ones
+           "opreuse": [1, 3, 3, 7, 0, 0, 1, 0, 0, 0, 0, 0, 0, 0, 4]}
 
 
 def proj_steps(triplets):
